@@ -177,7 +177,7 @@ impl Cfg {
         !self.sels.is_empty() || !self.docs.is_empty()
     }
     pub fn has_text_handler(&self) -> bool {
-        self.sels.iter().any(|s| s.text) || self.docs.iter().any(|d| d.text)
+        self.sels.iter().any(|s| s.text || s.ops.iter().any(|o| o.kind == Kind::Text)) || self.docs.iter().any(|d| d.text || d.ops.iter().any(|o| o.kind == Kind::Text))
     }
     pub fn mutates(&self) -> bool {
         self.sels.iter().any(|s| !s.ops.is_empty()) || self.docs.iter().any(|d| !d.ops.is_empty())
@@ -235,6 +235,11 @@ pub struct Shared {
     pub invocations: usize,
     pub fail_at: Option<usize>,
     pub injected: bool,
+    /// where the injected fault happened: (handler id, kind, index of the chunk inside its
+    /// text node for text handlers)
+    pub injected_where: Option<(String, Kind, usize)>,
+    /// chunks seen so far in the current text node, per handler
+    pub chunk_idx: std::collections::HashMap<String, usize>,
     /// per (handler id, kind) counters for `nth`
     pub counters: std::collections::HashMap<(String, Kind), usize>,
 }
@@ -257,11 +262,18 @@ impl OutputSink for LogSink {
 
 pub const INJECTED: &str = "injected-fault";
 
-fn tick(sh: &Sh) -> Result<(), Box<dyn std::error::Error + Send + Sync>> {
+fn tick(sh: &Sh, h: &str, kind: Kind, last_chunk: bool) -> Result<(), Box<dyn std::error::Error + Send + Sync>> {
     let mut s = sh.borrow_mut();
     s.invocations += 1;
+    let mut idx = 0;
+    if kind == Kind::Text {
+        let e = s.chunk_idx.entry(h.to_string()).or_insert(0);
+        idx = *e;
+        if last_chunk { *e = 0 } else { *e += 1 }
+    }
     if s.fail_at == Some(s.invocations) {
         s.injected = true;
+        s.injected_where = Some((h.to_string(), kind, idx));
         return Err(INJECTED.into());
     }
     Ok(())
@@ -437,7 +449,7 @@ pub fn build_settings<'h>(cfg: &Cfg, sh: &Sh) -> Result<Settings<'h, 'static>, S
         if s.el || s.end_tag || s.ops.iter().any(|o| o.kind == Kind::Element || o.kind == Kind::EndTag) {
             let (sh2, hid2, ops, want_el, want_end) = (sh.clone(), hid.clone(), s.ops.clone(), s.el, s.end_tag);
             h = h.element(move |el: &mut Element<'_, '_>| {
-                tick(&sh2)?;
+                tick(&sh2, &hid2, Kind::Element, true)?;
                 let ev = element_ev(&hid2, el);
                 let el_loc = ev.loc().unwrap();
                 if want_el {
@@ -448,7 +460,7 @@ pub fn build_settings<'h>(cfg: &Cfg, sh: &Sh) -> Result<Settings<'h, 'static>, S
                     if let Some(hs) = el.end_tag_handlers() {
                         let (sh3, hid3) = (sh2.clone(), hid2.clone());
                         hs.push(Box::new(move |e: &mut EndTag<'_>| {
-                            tick(&sh3)?;
+                            tick(&sh3, &hid3, Kind::EndTag, true)?;
                             if want_end {
                                 sh3.borrow_mut().events.push(Ev::EndTag { h: hid3.clone(), name: e.name(), name_pc: e.name_preserve_case(), loc: loc(e.source_location()), el_loc });
                             }
@@ -463,7 +475,7 @@ pub fn build_settings<'h>(cfg: &Cfg, sh: &Sh) -> Result<Settings<'h, 'static>, S
         if s.text || s.ops.iter().any(|o| o.kind == Kind::Text) {
             let (sh2, hid2, ops, want) = (sh.clone(), hid.clone(), s.ops.clone(), s.text);
             h = h.text(move |t: &mut TextChunk<'_>| {
-                tick(&sh2)?;
+                tick(&sh2, &hid2, Kind::Text, t.last_in_text_node())?;
                 if want {
                     sh2.borrow_mut().events.push(Ev::Text { h: hid2.clone(), text: t.as_str().to_string(), ttype: format!("{:?}", t.text_type()), last: t.last_in_text_node(), loc: loc(t.source_location()) });
                 }
@@ -474,7 +486,7 @@ pub fn build_settings<'h>(cfg: &Cfg, sh: &Sh) -> Result<Settings<'h, 'static>, S
         if s.comments || s.ops.iter().any(|o| o.kind == Kind::Comment) {
             let (sh2, hid2, ops, want) = (sh.clone(), hid.clone(), s.ops.clone(), s.comments);
             h = h.comments(move |c: &mut Comment<'_>| {
-                tick(&sh2)?;
+                tick(&sh2, &hid2, Kind::Comment, true)?;
                 if want {
                     sh2.borrow_mut().events.push(Ev::Comment { h: hid2.clone(), text: c.text(), loc: loc(c.source_location()) });
                 }
@@ -490,7 +502,7 @@ pub fn build_settings<'h>(cfg: &Cfg, sh: &Sh) -> Result<Settings<'h, 'static>, S
         if d.doctype || d.ops.iter().any(|o| o.kind == Kind::Doctype) {
             let (sh2, hid2, ops, want) = (sh.clone(), hid.clone(), d.ops.clone(), d.doctype);
             h = h.doctype(move |dt: &mut Doctype<'_>| {
-                tick(&sh2)?;
+                tick(&sh2, &hid2, Kind::Doctype, true)?;
                 if want {
                     sh2.borrow_mut().events.push(Ev::Doctype { h: hid2.clone(), name: dt.name(), pid: dt.public_id(), sid: dt.system_id(), loc: loc(dt.source_location()) });
                 }
@@ -507,7 +519,7 @@ pub fn build_settings<'h>(cfg: &Cfg, sh: &Sh) -> Result<Settings<'h, 'static>, S
         if d.comments || d.ops.iter().any(|o| o.kind == Kind::Comment) {
             let (sh2, hid2, ops, want) = (sh.clone(), hid.clone(), d.ops.clone(), d.comments);
             h = h.comments(move |c: &mut Comment<'_>| {
-                tick(&sh2)?;
+                tick(&sh2, &hid2, Kind::Comment, true)?;
                 if want {
                     sh2.borrow_mut().events.push(Ev::Comment { h: hid2.clone(), text: c.text(), loc: loc(c.source_location()) });
                 }
@@ -518,7 +530,7 @@ pub fn build_settings<'h>(cfg: &Cfg, sh: &Sh) -> Result<Settings<'h, 'static>, S
         if d.text || d.ops.iter().any(|o| o.kind == Kind::Text) {
             let (sh2, hid2, ops, want) = (sh.clone(), hid.clone(), d.ops.clone(), d.text);
             h = h.text(move |t: &mut TextChunk<'_>| {
-                tick(&sh2)?;
+                tick(&sh2, &hid2, Kind::Text, t.last_in_text_node())?;
                 if want {
                     sh2.borrow_mut().events.push(Ev::Text { h: hid2.clone(), text: t.as_str().to_string(), ttype: format!("{:?}", t.text_type()), last: t.last_in_text_node(), loc: loc(t.source_location()) });
                 }
@@ -529,7 +541,7 @@ pub fn build_settings<'h>(cfg: &Cfg, sh: &Sh) -> Result<Settings<'h, 'static>, S
         if d.end || d.ops.iter().any(|o| o.kind == Kind::DocEnd) {
             let (sh2, hid2, ops, want) = (sh.clone(), hid.clone(), d.ops.clone(), d.end);
             h = h.end(move |e: &mut DocumentEnd<'_>| {
-                tick(&sh2)?;
+                tick(&sh2, &hid2, Kind::DocEnd, true)?;
                 if want {
                     sh2.borrow_mut().events.push(Ev::End { h: hid2.clone() });
                 }
@@ -571,6 +583,7 @@ pub struct RunOut {
     pub events: Vec<Ev>,
     pub invocations: usize,
     pub injected: bool,
+    pub injected_where: Option<(String, Kind, usize)>,
     /// sink length (number of sink calls) at the time the failing call returned
     pub sink_calls_at_error: Option<usize>,
 }
@@ -665,6 +678,7 @@ pub fn run_ext(chunks: &[&[u8]], cfg: &Cfg, poke_after_error: bool) -> RunOut {
         events: s.events,
         invocations: s.invocations,
         injected: s.injected,
+        injected_where: s.injected_where,
         sink_calls_at_error,
     }
 }
